@@ -34,6 +34,25 @@ theorem C03_no_mixing (bufSize : Nat) (xs : List Sentence) (k : Slot)
   have := coreRun_project bufSize [] xs k hok
   simpa using this
 
+/-- a sequence of complete fragment sets through one free slot: block after block, the slot is free
+again after each -/
+theorem slotRun_blocks (bufSize : Nat) (msgs : List (Nat × (Nat → Sentence) × List Nat))
+    (hmsgs : ∀ m ∈ msgs, 1 ≤ m.1 ∧ m.1 ≤ bufSize ∧
+        (∀ j, (m.2.1 j).fragNum = (j : Int) ∧ (m.2.1 j).fragCnt = (m.1 : Int)) ∧
+        m.2.2.Perm (List.range' 1 m.1)) :
+    slotRun bufSize none (msgs.map fun m => m.2.2.map m.2.1).flatten
+      = ((msgs.map fun m =>
+          List.replicate (m.1 - 1) [] ++ [(assemble ((List.range' 1 m.1).map m.2.1)).toList]).flatten,
+         none, true) := by
+  induction msgs with
+  | nil => simp [slotRun]
+  | cons m ms ih =>
+    obtain ⟨h1, h2, h3, h4⟩ := hmsgs m (by simp)
+    rw [List.map_cons, List.flatten_cons, slotRun_append, slotRun_block bufSize m.1 h1 h2 m.2.1 h3 m.2.2 h4]
+    dsimp only
+    rw [ih (fun m' hm' => hmsgs m' (by simp [hm']))]
+    simp only [List.map_cons, List.flatten_cons]
+
 /-- **One assembled message per complete fragment set, at the moment its last fragment arrives.**
 If the fragments of slot `k` in the input are a sequence of complete sets — set `j` being any
 permutation of the fragments `1 … n j` of message `j` (slot reuse by later messages included) — then
@@ -49,7 +68,7 @@ theorem C03_delivery (bufSize : Nat) (xs : List Sentence) (k : Slot)
     ((xs.zip (coreRun bufSize [] xs).1).filter (fun p => inSlot p.1 k)).map (·.2)
       = (msgs.map fun m =>
           List.replicate (m.1 - 1) [] ++ [(assemble ((List.range' 1 m.1).map m.2.1)).toList]).flatten := by
-  sorry
+  rw [C03_no_mixing bufSize xs k hok, hproj, slotRun_blocks bufSize msgs hmsgs]
 
 /-- **What is delivered**: the first fragment's carrier fields, payload and bits the fragments'
 concatenated in fragment-number order, validity the conjunction of the parts' validity. -/
@@ -76,7 +95,20 @@ theorem C03_incomplete (bufSize n : Nat) (hn : n ≤ bufSize) (all : Nat → Sen
 theorem C03_no_index_error (xs : List Sentence)
     (h : ∀ s ∈ xs, s.isSingle = false → 1 ≤ s.fragNum ∧ s.fragNum ≤ Generated.MAX_FRAG_CNT ∧ 1 ≤ s.fragCnt) :
     (coreRun Generated.STREAM_BUF_SIZE [] xs).2 = true ∧ (coreRun Generated.QUEUE_BUF_SIZE [] xs).2 = true := by
-  sorry
+  obtain ⟨hs, hq, _⟩ := bounds_ok
+  have hs' : ((Generated.MAX_FRAG_CNT : Nat) : Int) ≤ ((Generated.STREAM_BUF_SIZE : Nat) : Int) :=
+    Int.ofNat_le.mpr hs
+  have hq' : ((Generated.MAX_FRAG_CNT : Nat) : Int) ≤ ((Generated.QUEUE_BUF_SIZE : Nat) : Int) :=
+    Int.ofNat_le.mpr hq
+  constructor
+  · refine (coreRun_ok Generated.STREAM_BUF_SIZE [] xs (fun k b hb => by simp at hb) ?_).1
+    intro s hsx hm
+    obtain ⟨a, b, c⟩ := h s hsx hm
+    exact ⟨a, Int.le_trans b hs', c⟩
+  · refine (coreRun_ok Generated.QUEUE_BUF_SIZE [] xs (fun k b hb => by simp at hb) ?_).1
+    intro s hsx hm
+    obtain ⟨a, b, c⟩ := h s hsx hm
+    exact ⟨a, Int.le_trans b hq', c⟩
 
 /-- non-vacuity: two interleaved two-part messages in different slots, fragments out of order, and a
 single sentence in between -/
@@ -94,6 +126,7 @@ example :
 #print axioms bounds_ok
 #print axioms C03_singles
 #print axioms C03_no_mixing
+#print axioms slotRun_blocks
 #print axioms C03_delivery
 #print axioms C03_assembled
 #print axioms C03_incomplete
